@@ -575,3 +575,208 @@ Proof.
     { rewrite A1, A2 in Hx1. rewrite B1, B2 in Hx2. rewrite <- Hx2 in Hx1. inversion Hx1. auto. }
     subst n2. pose proof (W3 _ _ G1) as M1. pose proof (W3 _ _ G2) as M2. congruence.
 Qed.
+
+(* ================================================================================================ *)
+(* D. the invariant over operation histories                                                         *)
+(* ================================================================================================ *)
+Ltac crush_ext :=
+  repeat match goal with
+  | |- context [kfoi ?a ?b ?c] => destruct (kfoi a b c) as [[? ?] ?]
+  | |- context [kins ?a ?b ?c ?d] => destruct (kins a b c d) as [? ?]
+  | |- context [match ?x with _ => _ end] => destruct x
+  end; try reflexivity.
+
+Lemma register_adc_ext c n dw de fr ph dd : ext_l (fst (fst (register_adc c n dw de fr ph dd))) = ext_l c.
+Proof. unfold register_adc. crush_ext. Qed.
+Lemma register_ctl_ext c ty ch de du : ext_l (fst (fst (register_ctl c ty ch de du))) = ext_l c.
+Proof. unfold register_ctl. crush_ext. Qed.
+Lemma register_label_ext c s v lbl : ext_l (fst (fst (register_label c s v lbl))) = ext_l c.
+Proof. unfold register_label. crush_ext. Qed.
+Lemma register_trap_ext c a r f fl d : ext_l (fst (fst (register_trap c a r f fl d))) = ext_l c.
+Proof. unfold register_trap. crush_ext. Qed.
+Lemma register_grad_ext c sids amp ws ts delay first last :
+  ext_l (fst (fst (fst (register_grad c sids amp ws ts delay first last)))) = ext_l c.
+Proof. unfold register_grad. crush_ext. Qed.
+Lemma register_rf_ext c sids amp mag ph ts delay freq phoff use :
+  ext_l (fst (fst (fst (register_rf c sids amp mag ph ts delay freq phoff use)))) = ext_l c.
+Proof. unfold register_rf. crush_ext. Qed.
+Lemma ext_type_id_ext c s : ext_l (fst (ext_type_id c s)) = ext_l c.
+Proof. unfold ext_type_id. destruct (index_of s (ext_str c)); reflexivity. Qed.
+
+Lemma ev_step_ext a e a' : ev_step a e = inl a' -> ext_l (a_core a') = ext_l (a_core a).
+Proof.
+  intro H. destruct e; cbn [ev_step] in H.
+  - destruct (negb (nth 1 (a_blk a) 0 =? 0)); [discriminate|].
+    destruct id as [i|].
+    + inversion H. reflexivity.
+    + pose proof (register_rf_ext (a_core a) sids amp mag phase tshape delay freq phoff use) as G.
+      destruct (register_rf (a_core a) sids amp mag phase tshape delay freq phoff use) as [[[c1 i] ids] clr].
+      inversion H. cbn. exact G.
+  - destruct (negb (nth (2 + ch) (a_blk a) 0 =? 0)); [discriminate|].
+    destruct id as [i|].
+    + inversion H. reflexivity.
+    + pose proof (register_grad_ext (a_core a) sids amp wshape tshape delay first last) as G.
+      destruct (register_grad (a_core a) sids amp wshape tshape delay first last) as [[[c1 i] ids] clr].
+      inversion H. cbn. exact G.
+  - destruct (negb (nth (2 + ch) (a_blk a) 0 =? 0)); [discriminate|].
+    destruct id as [i|].
+    + inversion H. reflexivity.
+    + pose proof (register_trap_ext (a_core a) amp rise flat fall delay) as G.
+      destruct (register_trap (a_core a) amp rise flat fall delay) as [[c1 i] clr].
+      inversion H. cbn. exact G.
+  - destruct (negb (nth 5 (a_blk a) 0 =? 0)); [discriminate|].
+    destruct id as [i|].
+    + inversion H. reflexivity.
+    + pose proof (register_adc_ext (a_core a) num dwell delay freq phoff dead) as G.
+      destruct (register_adc (a_core a) num dwell delay freq phoff dead) as [[c1 i] clr].
+      inversion H. cbn. exact G.
+  - inversion H. reflexivity.
+  - destruct id as [i|].
+    + pose proof (ext_type_id_ext (a_core a) XS_TRIGGERS) as G.
+      destruct (ext_type_id (a_core a) XS_TRIGGERS) as [c2 tid].
+      inversion H. cbn. exact G.
+    + pose proof (register_ctl_ext (a_core a) typ chan delay dur) as G1.
+      destruct (register_ctl (a_core a) typ chan delay dur) as [[c1 i] clr]. cbn [fst] in G1.
+      pose proof (ext_type_id_ext c1 XS_TRIGGERS) as G2.
+      destruct (ext_type_id c1 XS_TRIGGERS) as [c2 tid].
+      inversion H. cbn. cbn [fst] in G2. congruence.
+  - destruct id as [i|].
+    + pose proof (ext_type_id_ext (a_core a) (if is_set then XS_LABELSET else XS_LABELINC)) as G.
+      destruct (ext_type_id (a_core a) (if is_set then XS_LABELSET else XS_LABELINC)) as [c2 tid].
+      inversion H. cbn. exact G.
+    + pose proof (register_label_ext (a_core a) is_set value lbl) as G1.
+      destruct (register_label (a_core a) is_set value lbl) as [[c1 i] clr]. cbn [fst] in G1.
+      pose proof (ext_type_id_ext c1 (if is_set then XS_LABELSET else XS_LABELINC)) as G2.
+      destruct (ext_type_id c1 (if is_set then XS_LABELSET else XS_LABELINC)) as [c2 tid].
+      inversion H. cbn. cbn [fst] in G2. congruence.
+  - inversion H. reflexivity.
+Qed.
+
+Lemma ev_loop_ext evs : forall a, ext_l (a_core (fst (ev_loop a evs))) = ext_l (a_core a).
+Proof.
+  induction evs as [|e r IH]; intros a; cbn [ev_loop]; [reflexivity|].
+  destruct (ev_step a e) as [a'|x] eqn:E; [|reflexivity].
+  rewrite IH. apply (ev_step_ext _ _ _ E).
+Qed.
+
+(* set_block touches the extension library only through ext_register *)
+Lemma sbc_ext abs_fix c i evs hint :
+  ext_wf (ext_l c) -> ext_wf (ext_l (fst (fst (set_block_core abs_fix c i evs hint)))).
+Proof.
+  intro W. unfold set_block_core.
+  pose proof (ev_loop_ext evs (mkAcc c false [0; 0; 0; 0; 0; 0; 0] qc0 [chk0; chk0; chk0] [])) as G.
+  destruct (ev_loop (mkAcc c false [0; 0; 0; 0; 0; 0; 0] qc0 [chk0; chk0; chk0] []) evs) as [a eo].
+  cbn [fst a_core] in G.
+  destruct eo as [x|]; [cbn [fst]; rewrite G; exact W|].
+  destruct (a_exts a) as [|x xs].
+  - destruct (check_channels abs_fix (a_core a) i (a_dur a) 0 (a_chk a)); cbn; rewrite G; exact W.
+  - assert (W' : ext_wf (ext_l (a_core a))) by (rewrite G; exact W).
+    destruct (ext_register_spec hint (ext_l (a_core a)) (x :: xs) W') as (A1 & _).
+    destruct (ext_register hint (ext_l (a_core a)) (x :: xs)) as [el eid]. cbn [fst] in A1.
+    destruct (check_channels abs_fix (a_core a <| ext_l := el |>) i (a_dur a) 0 (a_chk a)); cbn; exact A1.
+Qed.
+
+Lemma dedup_core_ext r1 r2 r3 r4 c c' : dedup_core r1 r2 r3 r4 c = Some c' -> ext_l c' = ext_l c.
+Proof.
+  intro H. unfold dedup_core in H.
+  destruct (lib_remove_duplicates key_eqb r1 (shape_l c)) as [sl smap].
+  destruct (remap_rows (ldata (grad_l c)) (grad_l c)
+              (fun id => match lib_type (grad_l c) id with Some t => t =? tag_g | None => false end)
+              (remap_grad_row smap)) as [gl1|]; cbn [opt_bind] in H; [|discriminate].
+  destruct (remap_rows (ldata (rf_l c)) (rf_l c) (fun _ => true) (remap_rf_row smap)) as [rl1|];
+    cbn [opt_bind] in H; [|discriminate].
+  destruct (lib_remove_duplicates key_eqb r2 gl1) as [gl2 gmap].
+  destruct (remap_blocks (blocks c) [2%nat; 3%nat; 4%nat] gmap) as [b1|]; cbn [opt_bind] in H; [|discriminate].
+  destruct (lib_remove_duplicates key_eqb r3 rl1) as [rl2 rmap].
+  destruct (remap_blocks b1 [1%nat] rmap) as [b2|]; cbn [opt_bind] in H; [|discriminate].
+  destruct (lib_remove_duplicates key_eqb r4 (adc_l c)) as [al2 amap].
+  destruct (remap_blocks b2 [5%nat] amap) as [b3|]; cbn [opt_bind] in H; [|discriminate].
+  inversion H. reflexivity.
+Qed.
+
+(* read(): the loaded extension library must be well formed (true of every file written by write()) *)
+Fixpoint ops_ext_wf (ops : list op) : Prop :=
+  match ops with
+  | [] => True
+  | Load c :: r => ext_wf (ext_l c) /\ ops_ext_wf r
+  | _ :: r => ops_ext_wf r
+  end.
+
+Lemma ops_ext_wf_cons o r : ops_ext_wf (o :: r) -> ops_ext_wf [o] /\ ops_ext_wf r.
+Proof. destruct o; cbn; tauto. Qed.
+
+Theorem step_ext_wf : forall cache_on abs_fix r1 r2 r3 r4 s o,
+  ext_wf (ext_l (st_core s)) -> ops_ext_wf [o] ->
+  ext_wf (ext_l (st_core (fst (step cache_on abs_fix r1 r2 r3 r4 s o)))).
+Proof.
+  intros cache_on abs_fix r1 r2 r3 r4 s o W Wo. destruct o; cbn [step].
+  - pose proof (sbc_ext abs_fix (st_core s) (next_block (st_core s)) evs hint W) as H.
+    destruct (set_block_core abs_fix (st_core s) (next_block (st_core s)) evs hint) as [[c' clr] e].
+    cbn [fst] in H. destruct e; cbn [fst st_core]; exact H.
+  - pose proof (sbc_ext abs_fix (st_core s) i evs hint W) as H.
+    destruct (set_block_core abs_fix (st_core s) i evs hint) as [[c' clr] e].
+    cbn [fst] in H. destruct e; cbn [fst st_core]; exact H.
+  - pose proof (do_get_core cache_on s i) as H.
+    destruct (do_get cache_on s i) as [s' b]. cbn [fst] in *. rewrite H. exact W.
+  - pose proof (register_rf_ext (st_core s) sids amp mag phase tshape delay freq phoff use) as H.
+    destruct (register_rf (st_core s) sids amp mag phase tshape delay freq phoff use) as [[[c' id] ids] clr].
+    cbn [fst st_core] in *. rewrite H. exact W.
+  - pose proof (register_grad_ext (st_core s) sids amp wshape tshape delay first last) as H.
+    destruct (register_grad (st_core s) sids amp wshape tshape delay first last) as [[[c' id] ids] clr].
+    cbn [fst st_core] in *. rewrite H. exact W.
+  - pose proof (register_trap_ext (st_core s) amp rise flat fall delay) as H.
+    destruct (register_trap (st_core s) amp rise flat fall delay) as [[c' id] clr].
+    cbn [fst st_core] in *. rewrite H. exact W.
+  - pose proof (register_adc_ext (st_core s) num dwell delay freq phoff dead) as H.
+    destruct (register_adc (st_core s) num dwell delay freq phoff dead) as [[c' id] clr].
+    cbn [fst st_core] in *. rewrite H. exact W.
+  - pose proof (register_label_ext (st_core s) is_set value lbl) as H.
+    destruct (register_label (st_core s) is_set value lbl) as [[c' id] clr].
+    cbn [fst st_core] in *. rewrite H. exact W.
+  - destruct (dedup_core r1 r2 r3 r4 (st_core s)) as [c'|] eqn:E; cbn [fst st_core].
+    + rewrite (dedup_core_ext _ _ _ _ _ _ E). exact W.
+    + exact W.
+  - cbn [fst]. exact W.
+  - cbn [fst]. rewrite touch_core. exact W.
+  - cbn [fst st_core]. cbn in Wo. exact (proj1 Wo).
+Qed.
+
+Lemma run_ext_wf_gen cache_on abs_fix r1 r2 r3 r4 ops : forall s acc,
+  ext_wf (ext_l (st_core s)) -> ops_ext_wf ops ->
+  ext_wf (ext_l (st_core (fst (fold_left (fun (acc : state * list out) o =>
+               let '(s', x) := step cache_on abs_fix r1 r2 r3 r4 (fst acc) o in (s', snd acc ++ [x]))
+               ops (s, acc))))).
+Proof.
+  induction ops as [|o r IH]; intros s acc W Wf; cbn [fold_left]; [exact W|].
+  destruct (ops_ext_wf_cons _ _ Wf) as [Wo Wr]. cbn [fst snd].
+  pose proof (step_ext_wf cache_on abs_fix r1 r2 r3 r4 s o W Wo) as W'.
+  destruct (step cache_on abs_fix r1 r2 r3 r4 s o) as [s1 x1]. cbn [fst] in W'.
+  apply IH; assumption.
+Qed.
+
+(* every store reachable from a well-formed one (e.g. the empty Sequence) by ANY history of
+   add_block, set_block, get_block, register_*, remove_duplicates, write and read of well-formed
+   files keeps the invariant *)
+Theorem run_ext_wf : forall cache_on abs_fix r1 r2 r3 r4 ops s0,
+  ext_wf (ext_l (st_core s0)) -> ops_ext_wf ops ->
+  ext_wf (ext_l (st_core (fst (run cache_on abs_fix r1 r2 r3 r4 s0 ops)))).
+Proof. intros. unfold run. apply run_ext_wf_gen; assumption. Qed.
+
+Theorem ext_wf_init : forall g s sl e, ext_wf (ext_l (core_init g s sl e)).
+Proof. intros. exact ext_wf_empty. Qed.
+
+(* ... hence in every reachable state the chain of every valid id is walked to the end within the
+   model's fuel, and next pointers strictly decrease *)
+Theorem ext_walk_terminates_run : forall cache_on abs_fix r1 r2 r3 r4 ops g s sl e eid,
+  ops_ext_wf ops ->
+  let c := st_core (fst (run cache_on abs_fix r1 r2 r3 r4 (mkState (core_init g s sl e) []) ops)) in
+  ext_walk (ext_l c) (S (length (ldata (ext_l c)))) eid <> WFuel /\
+  (forall id k, lib_get (ext_l c) id = Some k -> 0 <= qz (knth k 2) < id).
+Proof.
+  intros cache_on abs_fix r1 r2 r3 r4 ops g s sl e eid Wf. cbv zeta.
+  pose proof (run_ext_wf cache_on abs_fix r1 r2 r3 r4 ops (mkState (core_init g s sl e) [])
+                (ext_wf_init g s sl e) Wf) as W.
+  split; [apply ext_walk_terminates; exact W|].
+  intros id k H. destruct W as (_ & W1 & _). destruct (W1 _ _ H) as (_ & ty & ref & nx & -> & Hn & _).
+  destruct (ext_row_fields ty ref nx) as (_ & _ & ->). exact Hn.
+Qed.
